@@ -66,7 +66,7 @@ def native_build(src, out, defs=(), extra=(), std='c++11', cxx='g++', opt='-O2',
     fl = [f.replace('-std=c++', '-std=gnu++') for f in base_flags(std) if f not in ('-fno-vectorize', '-fno-slp-vectorize', '-fno-unroll-loops', '-Wno-everything', '-O1')]
     cmd = [cxx]
     for d in pre_inc: cmd += ['-I', d]
-    cmd += fl + ['-w', opt, '-fpermissive', src] + list(objs) + ['-o', out]
+    cmd += fl + ['-w', opt, '-fpermissive', '-fopenmp', src] + list(objs) + ['-o', out]
     for d in defs: cmd.append('-D' + d)
     cmd += list(extra)
     rc, o, e, dt, to = sh(cmd, timeout=600)
@@ -164,10 +164,13 @@ class Evidence:
         s.functions = set(); s.assumptions = []; s.stubs = []; s.bounds = {}; s.outside = []
         s.queries = 0; s.discharged = 0; s.inconclusive = 0; s.nontrivial = 0; s.solver_s = 0.0; s.peak_rss_mb = 0
         s.witnesses = {}; s.tv = {'programs': 0, 'vectors': 0, 'mismatches': 0}; s.violations = []; s.known_hits = []; s.notes = []
-        s.replays = 0
+        s.replays = 0; s.states = 0; s.transitions = 0
     def add(s, harness, what, bound, verdict, solver_s=0.0, nontrivial=1, extra=None):
         d = {'harness': harness, 'obligation': what, 'bound': bound, 'verdict': verdict, 'solver_s': round(solver_s, 3)}
-        if extra: d.update(extra)
+        if extra:
+            d.update(extra)
+            s.states += int(extra.get('ssa_steps', 0) or 0) + int(extra.get('paths', 0) or 0)
+            s.transitions += int(extra.get('vccs', 0) or 0) + int(extra.get('path_obligations', 0) or 0)
         s.obligations.append(d); s.queries += 1; s.solver_s += solver_s
         if verdict == 'discharged': s.discharged += 1; s.nontrivial += nontrivial
         elif verdict in ('inconclusive', 'timeout', 'oom'): s.inconclusive += 1
@@ -178,6 +181,8 @@ class Evidence:
               'coverage': {'evaluations': max(s.queries, 1), 'distinct_nontrivial': max(s.nontrivial, 0),
                            'rule': 'one evaluation = one solver query (a cbmc run over a translated harness, or one z3 check of a path obligation); '
                                    'distinct_nontrivial counts verification conditions / path obligations that remained after simplification and were discharged (unsat) by the solver',
+                           'states': max(s.states, 1), 'transitions': max(s.transitions, 1), 'traces_validated_against_impl': s.tv['vectors'] + s.replays,
+                           'states_transitions_meaning': 'states = symbolic states encoded (cbmc SSA steps of the unrolled program / symbolic-execution paths completed); transitions = verification conditions or path obligations decided by the solver; traces_validated_against_impl = translation-validation vectors run through both the encoding and the natively compiled real code, plus native replays',
                            'samples': samples, 'obligations': s.queries, 'discharged': s.discharged, 'inconclusive': s.inconclusive,
                            'functions_encoded': sorted(s.functions), 'bounds': s.bounds, 'stubs': s.stubs, 'outside_claim': s.outside,
                            'witnesses': s.witnesses, 'translation_validation': s.tv, 'solver_s': round(s.solver_s, 2), 'peak_rss_mb': s.peak_rss_mb,
